@@ -138,6 +138,19 @@ func RunNewEpic(opts GlobalOptions) error {
 	return nil
 }
 
+// refreshCreated re-reads what a follow-up update (state/claim given at creation) may have changed,
+// so that the reply reports the task as a following read shows it.
+func refreshCreated(dir string, created createOutput) createOutput {
+	graph, err := loadGraph(dir)
+	if err != nil {
+		return created
+	}
+	if task := graph.Tasks[created.ID]; task != nil {
+		created.State = task.State
+	}
+	return created
+}
+
 func RunNewTask(opts GlobalOptions) error {
 	if opts.BodyStdin {
 		if err := validateBodyStdinExclusions(opts.BodyFlag); err != nil {
@@ -169,6 +182,7 @@ func RunNewTask(opts GlobalOptions) error {
 			if err := applySetUpdates(dir, opts, created.ID, updates, agentID, true); err != nil {
 				return err
 			}
+			created = refreshCreated(dir, created)
 		}
 
 		if opts.JSON {
@@ -206,6 +220,7 @@ func RunNewTask(opts GlobalOptions) error {
 			if err := applySetUpdates(dir, opts, created.ID, updates, agentID, true); err != nil {
 				return err
 			}
+			created = refreshCreated(dir, created)
 		}
 
 		if opts.JSON {
@@ -255,6 +270,7 @@ func RunNewTask(opts GlobalOptions) error {
 			if err := applySetUpdates(dir, opts, created.ID, updates, agentID, true); err != nil {
 				return err
 			}
+			created = refreshCreated(dir, created)
 		}
 	}
 
